@@ -10,6 +10,7 @@ import SkNet.Lemmas.ModularityComponents
 import SkNet.Lemmas.ModularityPre
 import SkNet.Lemmas.ModularityFitComp
 import SkNet.Lemmas.ModularityLeiden
+import SkNet.Lemmas.ModularityLeidenComp
 
 namespace SkNet.C06
 open SkNet SkNet.Modularity
@@ -243,6 +244,17 @@ theorem louvain_clusters_within_components (kind : Kind) (res tolOpt tolAgg : Ra
       labOf out.labels u = labOf out.labels v →
       Connected (kindAdj kind nRow nCol B fb).1 (kindAdj kind nRow nCol B fb).2 u v :=
   louvainFit_comp kind res tolOpt tolAgg nAgg nRow nCol nnz B fb coreFuel out h
+
+/-- **clusters_within_components (Leiden.fit).**  The same for `Leiden.fit`, for every oracle of the random
+    choices: although the graph is aggregated by the refined clusters, the returned (coarse) clusters stay inside
+    connected components of the matrix the kind works on. -/
+theorem leiden_clusters_within_components (kind : Kind) (res tolOpt tolAgg : Rat) (nAgg : Int)
+    (nRow nCol nnz : Nat) (B : Nat → Nat → Rat) (fb : Bool) (coreFuel : Nat) (rands : List (List Nat)) (out : FitOut)
+    (h : leidenFit kind res tolOpt tolAgg nAgg nRow nCol nnz B fb coreFuel rands = .ok (some out)) :
+    ∀ u v, u < (kindAdj kind nRow nCol B fb).1 → v < (kindAdj kind nRow nCol B fb).1 →
+      labOf out.labels u = labOf out.labels v →
+      Connected (kindAdj kind nRow nCol B fb).1 (kindAdj kind nRow nCol B fb).2 u v :=
+  leidenFit_comp kind res tolOpt tolAgg nAgg nRow nCol nnz B fb coreFuel rands out h
 
 /-- non-vacuity: two triangles joined by an edge (6 nodes, unit weights, Dugué, γ = 1, tolerances 0): the fit returns
     the two triangles after two aggregations, with logged increases 26/49 and 0
